@@ -632,6 +632,12 @@ Inductive op :=
 | StartDeferral
 | EndDeferral.
 
+(* while the family is deferring (Restarting Speaker mode) the table is updated
+   but no mutator hands a change to the distribution layer; end_deferral reports
+   the final state of every destination *)
+Definition quiet (t : table) (cs : list change) : list change :=
+  if t_deferring t then [] else cs.
+
 Definition step (t : table) (o : op) : table * list change * bool (* limit exceeded *) :=
   match o with
   | Insert s net rpid nh a f i lim =>
@@ -642,12 +648,12 @@ Definition step (t : table) (o : op) : table * list change * bool (* limit excee
       end
   | Remove s net rpid ctr =>
       match remove t s net rpid ctr with
-      | (t', Some c) => (t', [c], false)
+      | (t', Some c) => (t', quiet t [c], false)
       | (t', None) => (t', [], false)
       end
-  | Drop k addr ctr => let '(t', cs) := drop_op t k addr ctr in (t', cs, false)
-  | Restale llgr addr => let '(t', cs) := restale_op t llgr addr in (t', cs, false)
-  | NhValidity nh r => let '(t', cs) := nhv_op t nh r in (t', cs, false)
+  | Drop k addr ctr => let '(t', cs) := drop_op t k addr ctr in (t', quiet t cs, false)
+  | Restale llgr addr => let '(t', cs) := restale_op t llgr addr in (t', quiet t cs, false)
+  | NhValidity nh r => let '(t', cs) := nhv_op t nh r in (t', quiet t cs, false)
   | StartDeferral => (set_deferring t true, [], false)
   | EndDeferral => (set_deferring t false, all_dests t, false)
   end.
